@@ -13,6 +13,7 @@ def queries(tier):
           cs.rv('t0', tier, 2, bound='dim 2'),
           cs.misc('time_interp', tier, bound='every in-bounds pair, t in [0,1]', backends=('cadical', 'kissat')),
           cs.misc('discrete_interp', tier, bound='bounds within [-15,15], every pair, t in [0,1]', backends=('cadical', 'kissat'), defines={'DRANGE': 15})]
+    qs.append(cs.compound('interpolate', tier, bound='3 stub components, every t'))
     for al in (1, 2):
         q = cs.so2('interp_alias', tier, bound='every in-bounds pair, every t in [0,1]; output aliases input %d' % al, defines={'ALIAS': al}, uf=('fmul', 'fadd', 'fsub'),
                    note='fmul, fadd, fsub abstracted by uninterpreted functions (sound for this equality claim)')
